@@ -80,10 +80,12 @@ def big_knobs():
     return {k: knobmod.BIG for k in knobmod.KNOBS if k != "CHUNK_SIZE_COLUMNS_FOR_DROP_COLUMNS"}
 
 
-def materialise(table, path, fmt, row_group=None, dict_strings=False, index_start=0, na_token="", g_format=False):
+def materialise(table, path, fmt, row_group=None, dict_strings=False, index_start=0, na_token="", g_format=False,
+                nan_values=False):
     p = Path(path)
     datagen.write_table(p, table, row_group if fmt == "parquet" else None, dict_strings=dict_strings and fmt == "parquet",
-                        index_start=index_start if fmt == "parquet" else 0, na_token=na_token, g_format=g_format)
+                        index_start=index_start if fmt == "parquet" else 0, na_token=na_token, g_format=g_format,
+                        nan_values=nan_values and fmt == "parquet")
     return p
 
 
